@@ -544,4 +544,38 @@ def noBareL : List PyAst → Bool
   | a :: as => noBare a && noBareL as
 end
 
+/-! ## explicit embedding into the query algebra of C04/C05
+
+`Hyp.Query.Q` (HypatiaModel/Query.lean) has integer values and numbered indexes; the trees of the
+expression language whose values are integers (or lists/tuples of integers) embed into it, given a
+numbering `ix` of the catalog's index names.  `Hyp.Query.Cmp` is shared. -/
+
+def V.toInt? : V → Option Int
+  | .const (.int i) => some i
+  | _ => none
+
+def V.toVal? : V → Option Hyp.Query.Val
+  | .const (.int i) => some (.one i)
+  | .list l => (l.mapM V.toInt?).map .many
+  | .tuple l => (l.mapM V.toInt?).map .many
+  | _ => none
+
+mutual
+def Q.toQuery? (ix : String → Option Nat) : Q → Option Hyp.Query.Q
+  | .cmp c i v => match ix i, v.toVal? with
+    | some n, some x => some (.cmp c n x)
+    | _, _ => none
+  | .range neg i s e sx ex => match ix i, s.toInt?, e.toInt? with
+    | some n, some lo, some hi => some (.range neg n lo hi sx ex)
+    | _, _, _ => none
+  | .and l => (Q.toQueryL? ix l).map .and
+  | .or l => (Q.toQueryL? ix l).map .or
+  | .not q => (Q.toQuery? ix q).map .not
+def Q.toQueryL? (ix : String → Option Nat) : List Q → Option (List Hyp.Query.Q)
+  | [] => some []
+  | q :: qs => match Q.toQuery? ix q, Q.toQueryL? ix qs with
+    | some x, some xs => some (x :: xs)
+    | _, _ => none
+end
+
 end Hyp.Cqe
